@@ -9,7 +9,7 @@ def _kinds(kind, choices, want):
         raise RuntimeError(r["inconclusive"])
     kinds = []
     if r["outcome"] not in ser:
-        if c11.overlapping_windows(r["seq"], domains=r.get("domains")):
+        if c11.overlapping_windows(r["seq"], domains=r.get("domains"), is_git=r.get("is_git")):
             kinds.append("C11/not-serializable@overlapping-journal-windows")
         elif r.get("stale"):
             kinds.append("C11/not-serializable@stale-base-append")
